@@ -63,7 +63,7 @@ def _expand(payload, sub):
     stats = {}
     sc = PL.gen_pipeline(rng, tables, payload['nsteps'], exclude=[k for k in ST.GENS if k not in STREAM_KINDS], stats=stats)
     return {'sources': srcs, 'steps': sc['steps'], 'N': payload['N'], 'sample_size': payload['sample_size'], 'gen_stats': stats,
-            'head': payload.get('head'), 'bad_row': payload.get('bad_row')}
+            'head': payload.get('head'), 'bad_row': payload.get('bad_row'), 'rerun': payload.get('rerun')}
 
 
 def _run(payload, sub):
@@ -180,7 +180,7 @@ class C06(Prop):
                    'look-ahead is only defined at deliveries: a pipeline whose filter drops every row cannot refute the property']
     REAL_VS_STUB = {'real': ['all dataflows code of the pipeline, tabulator/tableschema iteration'], 'stub': ['counting generator sources', 'recording rows-function sink']}
     PROBES = ['unpivot-in-pipeline', 'concatenate-in-pipeline', 'dumper-in-pipeline', 'checkpoint-in-pipeline', 'filter-in-pipeline', 'null-column-source', 'load-tuple-source',
-              'multi-source', 'sample-size-knob', 'N=100000', 'consumer-stops-early', 'run-fails-mid-stream']
+              'multi-source', 'sample-size-knob', 'N=100000', 'consumer-stops-early', 'run-fails-mid-stream', 'second-run-into-the-same-directory']
     TIERS = {'quick': dict(runs=400, wall=110, run_wall=200),
              'thorough': dict(runs=6000, wall=1700, run_wall=900)}
     SHRINK_FROZEN = ('cols', 'gen_stats')
@@ -196,7 +196,9 @@ class C06(Prop):
         if r < 0.12:
             sc['head'] = rng.choice([10, 1000])          # the consumer stops reading the last resource after k rows
         elif r < 0.24:
-            sc['bad_row'] = rng.choice([500, 5000])      # an uncastable value arrives mid-stream and fails the run (validate appended)
+            sc['bad_row'] = rng.choice([500, 5000])
+        elif r < 0.36:
+            sc['rerun'] = True      # an uncastable value arrives mid-stream and fails the run (validate appended)
         return sc
 
     def execute(self, sc, ctx):
@@ -226,6 +228,13 @@ class C06(Prop):
         d = os.path.join(ctx.scratch, 'w')
         os.makedirs(d)
         os.chdir(d)
+        if sc.get('rerun'):
+            # the same pipeline has already run once in this directory (its dumps / streams exist): measure the second run
+            ctx.probe('second-run-into-the-same-directory')
+            first = ctx.subrun(_run, dict(sc, steps=[sp for sp in sc['steps'] if sp['step'] != 'checkpoint']), wall=600)
+            if first['status'] != 'ok':
+                ctx.discard('first run raises')
+            sc = dict(sc, steps=[sp for sp in sc['steps'] if sp['step'] != 'checkpoint'])
         r = ctx.subrun(_run, sc, wall=600)
         if r['status'] != 'ok':
             ctx.discard('pipeline raises (ill-typed under this sample size): %s' % json.dumps(r.get('exc'))[:300])
